@@ -285,6 +285,11 @@ LengthFramed(scn) ==
     /\ ~SrvEnveloped(scn) /\ Enveloped(scn.cl.form)
     /\ SrvCodec(scn.cfg, sp, ClientCodec(scn.cl)) = ClientCodec(scn.cl)
 
+UnEnvConverted(scn) ==
+    LET sp == SrvProto(scn.cfg, ProtoOf(scn.cl.form)) IN
+    /\ ~SrvEnveloped(scn) /\ sp # "rest" /\ scn.cl.form # "rest"
+    /\ SrvCodec(scn.cfg, sp, ClientCodec(scn.cl)) # ClientCodec(scn.cl)
+
 \* the stream faults C09 enumerates
 C09Faulty(scn) ==
     \/ scn.cl.cut # "" \/ FrameFaulty(scn.cl.frames) \/ scn.cl.clen \in {"over", "under"}
@@ -298,6 +303,9 @@ C09Faulty(scn) ==
     \* a declared Content-Length matters where the transcoder frames the message with it:
     \* un-enveloped backend, enveloped client, payload passed on without re-encoding
     \/ (scn.hd.clen \in {"short", "long"} /\ LengthFramed(scn))
+    \* ... and where it holds the whole body to convert it (un-enveloped backend, another codec): a body that is not
+    \* what its Content-Length announced is a truncated message even if it happens to decode
+    \/ (scn.hd.clen \in {"short", "long"} /\ UnEnvConverted(scn))
 
 HandlerSideFault(scn) == C09Faulty(scn) /\ ~(scn.cl.cut # "" \/ FrameFaulty(scn.cl.frames) \/ scn.cl.clen \in {"over", "under"})
 
